@@ -92,6 +92,8 @@ pub mod verif_clock {
 /// counted per thread from the last `arm`. When the armed index is reached the label is written to stderr
 /// and the PROCESS is aborted (`std::process::abort()`, SIGABRT: no unwinding, no destructors, no flush) -
 /// meant for a child process whose parent then inspects the directory the dead child left behind.
+/// `arm_split` additionally places a crash point INSIDE the `write_all` of `checkpoint` (after a chosen number of bytes);
+/// the retention clean-up is ONE `fs::remove_dir_all` call and has no point inside (only `drop` before, `rmtree` after).
 #[cfg(rre_verif)]
 pub mod verif_crash {
     use std::cell::Cell;
@@ -126,6 +128,43 @@ pub mod verif_crash {
             let _ = writeln!(e, "@{} {}", n, label);
             let _ = e.flush();
             std::process::abort();
+        }
+    }
+
+    thread_local! {
+        static SPLIT: std::cell::RefCell<Option<Box<dyn Fn(&[u8]) -> usize>>> = const { std::cell::RefCell::new(None) };
+    }
+
+    /// `Some(f)`: from now on the `write_all(bytes)` of `checkpoint` on this thread is carried out as
+    /// `write_all(&bytes[..k])`, crash point `partial:<k>/<len>`, `write_all(&bytes[k..])` with `k = min(f(bytes), len)` -
+    /// so that `arm` can kill the process INSIDE the write, after exactly `k` bytes (the extra point is counted like
+    /// every other one: it is point 4 of a checkpoint). `None` (the default): the write is the single
+    /// `write_all(bytes)` of the unhooked code and there is no extra point.
+    pub fn arm_split(f: Option<Box<dyn Fn(&[u8]) -> usize>>) {
+        SPLIT.with(|s| *s.borrow_mut() = f);
+    }
+
+    /// the checkpoint file as `checkpoint` writes to it (see `arm_split`); everything else is passed through
+    pub struct SplitWrite<W: std::io::Write>(pub W);
+
+    impl<W: std::io::Write> std::io::Write for SplitWrite<W> {
+        fn write(&mut self, buf: &[u8]) -> std::io::Result<usize> {
+            self.0.write(buf)
+        }
+
+        fn flush(&mut self) -> std::io::Result<()> {
+            self.0.flush()
+        }
+
+        fn write_all(&mut self, buf: &[u8]) -> std::io::Result<()> {
+            match SPLIT.with(|s| s.borrow().as_ref().map(|f| f(buf).min(buf.len()))) {
+                None => self.0.write_all(buf),
+                Some(k) => {
+                    self.0.write_all(&buf[..k])?;
+                    point(&format!("partial:{}/{}", k, buf.len()));
+                    self.0.write_all(&buf[k..])
+                }
+            }
         }
     }
 }
@@ -652,6 +691,7 @@ impl StateStore {
 
                 #[cfg(rre_verif)]
                 verif_crash::point("serialise");
+                #[cfg_attr(rre_verif, allow(unused_mut))]
                 let mut file = fs::File::create(&data_path).map_err(|e| {
                     RuleEngineError::ExecutionError(format!(
                         "Failed to create checkpoint file: {}",
@@ -661,6 +701,8 @@ impl StateStore {
 
                 #[cfg(rre_verif)]
                 verif_crash::point("create");
+                #[cfg(rre_verif)]
+                let mut file = verif_crash::SplitWrite(file);
                 file.write_all(json.as_bytes()).map_err(|e| {
                     RuleEngineError::ExecutionError(format!("Failed to write checkpoint: {}", e))
                 })?;
